@@ -32,6 +32,10 @@ def sum1(E, arr, node=None):
     """Sum of a 1-d array through the ghost function, with lemma instances"""
     if arr.ndim != 1:
         raise Unsupported("Sum of rank %d" % arr.ndim)
+    key = ("sum1", arr.cell.term.get_id(), tuple(map(repr, arr.imap)), tuple(map(repr, arr.shape)))
+    cache = E.ps.setdefault("sum1", {})
+    if key in cache:
+        return cache[key]
     fs = arr.snapshot()
     n = z(arr.shape[0])
     i = z3.Int(fresh_name("sx"))
@@ -41,21 +45,44 @@ def sum1(E, arr, node=None):
     if z3.is_bool(body):
         body = z3.If(body, z3.RealVal(1), z3.RealVal(0))
     a = z3.Lambda([i], body)
-    return sum_term(E, a, n)
+    cache[key] = sum_term(E, a, n)
+    return cache[key]
 
 
 def sum_term(E, a, n):
+    """per application: sum_empty / sum_nonneg / sum_nonpos instances.  Congruence and monotonicity
+    instances between two applications are requested by contracts (sum_congr, sum_congr_all)."""
     S = SumF(a, n)
-    E.axiom(z3.Implies(n <= 0, S == 0))
-    E.axiom(z3.Implies(_all_in(n, lambda i: z3.Select(a, i) >= 0), S >= 0))
-    E.axiom(z3.Implies(_all_in(n, lambda i: z3.Select(a, i) <= 0), S <= 0))
-    for (b, m, Sb) in E._sum_apps_for_path():
-        E.axiom(z3.Implies(z3.And(n == m, _all_in(n, lambda i: z3.Select(a, i) == z3.Select(b, i))), S == Sb))
+    E.axiom(z3.Implies(n <= 0, S == 0), requested=False)
+    E.axiom(z3.Implies(_all_in(n, lambda i: z3.Select(a, i) >= 0), S >= 0), requested=False)
+    E.axiom(z3.Implies(_all_in(n, lambda i: z3.Select(a, i) <= 0), S <= 0), requested=False)
+    E._sum_apps_for_path().append((a, n, S))
+    E.used_lemmas.update(["sum_empty", "sum_nonneg", "sum_nonpos"])
+    return S
+
+
+def sum_congr(E, app1, app2, le=False):
+    (a, n, S), (b, m, Sb) = app1, app2
+    E.axiom(z3.Implies(z3.And(n == m, _all_in(n, lambda i: z3.Select(a, i) == z3.Select(b, i))), S == Sb))
+    E.used_lemmas.add("sum_congr")
+    if le:
         E.axiom(z3.Implies(z3.And(n == m, _all_in(n, lambda i: z3.Select(a, i) <= z3.Select(b, i))), S <= Sb))
         E.axiom(z3.Implies(z3.And(n == m, _all_in(n, lambda i: z3.Select(b, i) <= z3.Select(a, i))), Sb <= S))
-    E._sum_apps_for_path().append((a, n, S))
-    E.used_lemmas.update(["sum_empty", "sum_nonneg", "sum_nonpos", "sum_congr", "sum_le"])
-    return S
+        E.used_lemmas.add("sum_le")
+
+
+def sum_congr_all(E, le=False):
+    apps = E._sum_apps_for_path()
+    for i in range(len(apps)):
+        for j in range(i + 1, len(apps)):
+            sum_congr(E, apps[i], apps[j], le)
+
+
+def app_of(E, S):
+    for app in E._sum_apps_for_path():
+        if z3.eq(app[2], S):
+            return app
+    raise KeyError("no Sum application for %s" % S)
 
 
 def sum_scale_lemma(E, a, b, n, c):
